@@ -197,6 +197,19 @@ def ldlStep (cmd : String) : P (List String) := do
     let pinv : Array Nat := (List.range n).foldl (fun (a : Array Nat) i => a.setIfInBounds (pa.getD i 0) i) (Array.replicate n 0)
     let (C, map) := Csc.permuteSym A pinv
     pure [s!"cscouter {natsStr C.outer}", s!"cscinner {natsStr C.inner}", s!"cscvals {qqsStr C.vals}", s!"cscmap {natsStr map}"]
+  | "csc.istpraw" =>
+    -- is_transpose_pattern on an A given by its raw arrays (duplicates / unsorted rows possible) against a well-formed C
+    let r ← nat
+    let c ← nat
+    let nnz ← nat
+    let outerA ← natArray (c + 1)
+    let innerA ← natArray nnz
+    let r2 ← nat
+    let c2 ← nat
+    let entC ← dotsOpt r2 c2
+    let A : Csc QQ := { rows := r, cols := c, outer := outerA, inner := innerA, vals := Array.replicate nnz 1 }
+    let C : Csc QQ := Csc.ofOpt r2 c2 entC
+    pure [s!"istp {if Csc.isTransposePattern A C then 1 else 0}"]
   | "ord.amd" =>
     -- Eigen's AMD is not modelled: only "returns a permutation whose inverse table and perm/permt are consistent"
     pure ["isperm 1 inv 1 roundtrip 1"]
